@@ -76,6 +76,21 @@ static int c15_main(int argc,char **argv){
       if(rc){ printf("encode analysis_init=%d\n",rc); free(line); continue; }
       vorbis_block_init(&vd,&vb); vorbis_comment_init(&vc);
       rc=vorbis_analysis_headerout(&vd,&vc,&h0,&h1,&h2);
+      { /* header output asked for twice (an application writing the same headers to two destinations): both sets must be complete, equal, and
+           accepted by the decoder; every byte handed out is read */
+        int hdr2=1;
+        if(rc==0){
+          ogg_packet g0,g1,g2; unsigned char *c0=malloc(h0.bytes+1),*c1=malloc(h1.bytes+1),*c2=malloc(h2.bytes+1); long b0=h0.bytes,b1=h1.bytes,b2=h2.bytes; int rc2;
+          memcpy(c0,h0.packet,b0); memcpy(c1,h1.packet,b1); memcpy(c2,h2.packet,b2);
+          rc2=vorbis_analysis_headerout(&vd,&vc,&g0,&g1,&g2);
+          if(rc2||g0.bytes!=b0||g1.bytes!=b1||g2.bytes!=b2||memcmp(g0.packet,c0,b0)||memcmp(g1.packet,c1,b1)||memcmp(g2.packet,c2,b2))hdr2=0;
+          else{ vorbis_info di; vorbis_comment dc; vorbis_info_init(&di); vorbis_comment_init(&dc);
+            if(vorbis_synthesis_headerin(&di,&dc,&g0)||vorbis_synthesis_headerin(&di,&dc,&g1)||vorbis_synthesis_headerin(&di,&dc,&g2))hdr2=0;
+            vorbis_comment_clear(&dc); vorbis_info_clear(&di); }
+          free(c0); free(c1); free(c2);
+        }
+        if(!hdr2)rc=-9998;   /* reported through the headerout field: not a documented code */
+      }
       mk_rng_state=12345;
       while(!eos&&rc==0){
         long todo=total-done,i; int c;
